@@ -332,11 +332,13 @@ class Endpoint:
         """
         modified_params = previously_modified_params or set()
         used_python_names: dict[PythonIdentifier, tuple[oai.ParameterLocation, Property]] = {}
+        # locals and module-level functions of the generated endpoint module, which a parameter must not shadow either
+        own_names = ["kwargs", "response", "sync_detailed", "asyncio_detailed"]
         reserved_names = ["client", "url", "headers", "params", "cookies", "body"]
         for parameter in self.iter_all_parameters():
             location, prop = parameter
 
-            if prop.python_name in reserved_names:
+            if prop.python_name in reserved_names or prop.python_name in own_names:
                 prop.set_python_name(new_name=f"{prop.python_name}_{location}", config=config)
                 modified_params.add((location, prop.name))
                 continue
